@@ -9,7 +9,8 @@ from ..core import VOCAB, render
 RULE = ("valid v3.0/v3.1 vectors: every base assignment x both minor versions (exhaustive), base x temporal "
         "and full environmental vectors sampled from the frozen vocabulary with random field order / "
         "Not Defined spelling; distinct = distinct (minor version, set of defined fields); each compared "
-        "model-vs-code and Lean-specification-vs-code")
+        "model-vs-code and Lean-specification-vs-code"
+        " + special families (corner vectors, every metric spelled out, frozen rounding ties, v2 low-end and cap families, base + one optional metric); the same string constructed three times; scores read from as_json() under the four option sets; 4 warm threads (1 us switch interval); fresh processes whose first use of the package is concurrent")
 ASSUMPTIONS = ["Decimal arithmetic modelled by exact rationals (v3_decimal_robust covers the two inexact powers)",
                "float(Decimal) of a one-decimal value prints as that value (C09)"]
 
